@@ -1206,3 +1206,47 @@ Proof.
     destruct (has_owner_r o l) eqn:E; cbn; [discriminate|]. intros H. inversion H. subst.
     apply (has_owner_r_raises _ _ _ E).
 Qed.
+
+(* _extract_last_applied after /repo commit 69b5a7d: on a live object that is a
+   map nothing is raised by the holders — only json.loads can raise (TypeError on
+   a non-str annotation, ValueError on text that does not parse); a non-map
+   metadata / annotations reads as "no last-applied" *)
+Lemma extract_raises_cases live ann e :
+  extract_last_applied_r live ann = Raised e ->
+  (is_map live = false /\ e = ExAttributeError) \/
+  (is_map live = true /\ (e = ExTypeError \/ (e = ExValueError /\ ann = None))).
+Proof.
+  unfold extract_last_applied_r.
+  destruct (negb (py_truthy live)); [discriminate|].
+  destruct live as [| | | | | |top]; cbn [get_r bind];
+    try (intros H; inversion H; left; split; reflexivity).
+  intros H. right. split; [reflexivity|]. revert H.
+  destruct (lookup "metadata" top) as [md|]; [|discriminate].
+  destruct (negb (py_truthy md)); [discriminate|].
+  destruct md as [| | | | | |mkvs]; try discriminate. cbn [get_r bind].
+  destruct (lookup "annotations" mkvs) as [an|]; [|discriminate].
+  destruct (negb (py_truthy an)); [discriminate|].
+  destruct an as [| | | | | |akvs]; try discriminate. cbn [get_r bind].
+  destruct (lookup last_applied_key akvs) as [la|]; [|discriminate].
+  destruct (negb (py_truthy la)); [discriminate|].
+  destruct la; try (intros H; inversion H; left; reflexivity).
+  destruct ann as [[| | | | | |]|]; try discriminate.
+  intros H. inversion H. right. split; reflexivity.
+Qed.
+
+Lemma extract_nonmap_holder_none top ann :
+  (forall md, lookup "metadata" top = Some md -> is_map md = false \/
+     exists mkvs, md = JMap mkvs /\
+       forall an, lookup "annotations" mkvs = Some an -> is_map an = false) ->
+  extract_last_applied_r (JMap top) ann = Done None.
+Proof.
+  intros H. unfold extract_last_applied_r.
+  destruct (negb (py_truthy (JMap top))); [reflexivity|]. cbn [get_r bind].
+  destruct (lookup "metadata" top) as [md|] eqn:M; [|reflexivity].
+  destruct (negb (py_truthy md)); [reflexivity|].
+  destruct (H md eq_refl) as [N|(mkvs & -> & A)].
+  - destruct md; try reflexivity. discriminate.
+  - cbn [get_r bind]. destruct (lookup "annotations" mkvs) as [an|] eqn:L; [|reflexivity].
+    destruct (negb (py_truthy an)); [reflexivity|].
+    specialize (A an eq_refl). destruct an; try reflexivity. discriminate.
+Qed.
